@@ -55,7 +55,14 @@ VarExprs(t) ==
 \* the implementation converts it element-wise; see DESIGN.md Appendix B.)
 LitVar(t) == { Src("litvar", <<SDecl("v", t)>>, EArr(<<EVar("v", t)>>), FALSE),
                Src("litvar", <<SDecl("v", t)>>, EMap(<<K_k>>, <<EVar("v", t)>>), FALSE),
-               Src("litvar-mixed", <<SDecl("v", t)>>, EArr(<<EVar("v", t), Witness(t)>>), FALSE) }
+               Src("litvar-mixed", <<SDecl("v", t)>>, EArr(<<EVar("v", t), Witness(t)>>), FALSE),
+               \* ... nor is an expression built from such a literal: concatenated on either side with a literal of
+               \* constants, repeated, sliced, grouped
+               Src("litvar-concat-right", <<SDecl("v", t)>>, EBin("+", Witness(TArr(t)), EArr(<<EVar("v", t)>>)), FALSE),
+               Src("litvar-concat-left", <<SDecl("v", t)>>, EBin("+", EArr(<<EVar("v", t)>>), Witness(TArr(t))), FALSE),
+               Src("litvar-rep", <<SDecl("v", t)>>, EBin("*", EArr(<<EVar("v", t)>>), ENum(I(2))), FALSE),
+               Src("litvar-slice", <<SDecl("v", t)>>, ESlice(EArr(<<EVar("v", t)>>), <<>>, <<ENum(I(1))>>), FALSE),
+               Src("litvar-group", <<SDecl("v", t)>>, EGrp(EArr(<<EVar("v", t)>>)), FALSE) }
 \* a variable declared by inference from an untyped empty value is a variable of the any-based type
 InferredEmptyVar ==
   { Src("infvar", <<SInfer("v", EArr(<<>>))>>, EVar("v", TArr(T_any)), FALSE),
